@@ -137,9 +137,11 @@ def run_janet(janet, pre, items, timeout):
 FIN = {0, 1, 4, 5, 6, 7, 8}
 
 
-def guard_r1(line):
+def guard_r1(line, final_forced=()):
     """direct oracle on a guard-pass trace of the IMPLEMENTATION: statuses only move forward, a finished fiber keeps its
-    status, nothing returns to `new` — also when the recursion guard refuses a resume.  Returns a message or None."""
+    status, nothing returns to `new` — also when the recursion guard refuses a resume.  Returns a message or None.
+    `final_forced`: registry slots whose digit in the FINAL snapshot is written by the harness, not read from the fiber
+    (run-tree-gs prints `f` for slot 0, its stand-in for the running harness fiber) - not compared there."""
     body, _, fin = line.partition(" | ")
     snaps = []
     for e in body.split(";") if body else []:
@@ -150,9 +152,11 @@ def guard_r1(line):
     if len(fp) >= 4:
         snaps.append(fp[3])
     prev = None
-    for sn in snaps:
+    for k, sn in enumerate(snaps):
         if prev is not None:
             for i in range(min(len(prev), len(sn))):
+                if i in final_forced and k == len(snaps) - 1 and len(fp) >= 4:
+                    continue
                 a, b = int(prev[i], 16), int(sn[i], 16)
                 if a != b and (a in FIN or b == 14):
                     return "fiber %d went from status %d to %d (snapshots %s -> %s)" % (i, a, b, prev, sn)
@@ -478,7 +482,7 @@ def gsched_pass(ctx, exe, n, broken):
         cov["gsched_trees"] += 1
         if "C_stack_recursed_too_deeply" in impl[i]:
             cov["gsched_trips_impl"] += 1
-        msg = guard_r1(impl[i])
+        msg = guard_r1(impl[i], final_forced=(0,))
         if msg:
             ctx.violation("protocol:status_forward_gsched", {"kind": "protocol", "rule": "status_forward", "janet": srcs[i], "impl_trace": impl[i], "limit": lim,
                                                              "prelude": "harness/C05/prelude.py prelude_gsched", "harness": "harness/C05/guardmain.c"},
